@@ -41,7 +41,7 @@ let tail_counts (src : source) =
   | KCbSkip | KCbNoSkip -> Printf.sprintf " reads=%d skips=%d" (int_of_n src.so_reads) (int_of_n src.so_skips)
   | _ -> " reads=- skips=-"
 
-let do_hdr = function
+let do_hdr nread = function
   | [kind; hx] ->
     let src = mk_source (kind_of kind) (bytes_of_hex hx) in
     let r = ref (lha_basic_reader_new (lha_input_stream_new src)) in
@@ -55,7 +55,7 @@ let do_hdr = function
          | Ok (Some h, r') ->
            r := r';
            Buffer.add_string b (header_string h);
-           let (d, r2) = lha_basic_reader_read_compressed !r (n_of_int 8) in
+           let (d, r2) = if nread = 0 then ([], !r) else lha_basic_reader_read_compressed !r (n_of_int nread) in
            r := r2;
            Buffer.add_string b (" d=" ^ hex_of_bytes d ^ " ; ");
            incr count
@@ -73,4 +73,5 @@ let do_hdr = function
        Buffer.contents b)
   | _ -> "ERR args"
 
-let () = add "hdr" do_hdr
+let () = add "hdr" (do_hdr 8)
+let () = add "hdrs" (do_hdr 0)
